@@ -156,6 +156,9 @@ GEN_PROFILES = {
                          doc_types="mixed"),
                 opts=[dict(test_run=True, tsp="DOCSTRING"), dict()]),
     "C03": dict(gen=dict(private_rate=0.3), opts=[dict()]),
+    "C05": dict(gen=dict(docs=0.0, infer_returns=0.0), opts=[dict()]),
+    "C06": dict(gen=dict(docs=0.0), opts=[dict()]),
+    "C07": dict(gen=dict(docs=0.0, infer_returns=0.5, ties=0.3), opts=[dict()]),
     "C04": dict(gen=dict(private_rate=0.4), opts=[dict()]),
     "C17": dict(gen=dict(private_rate=0.45), opts=[dict()]),
 }
